@@ -384,6 +384,56 @@ impl FrameDeallocator<Size4KiB> for ArenaAlloc {
         if let Some(h) = s.dealloc_hook {
             h(&mut s, p);
         }
+        // C10 "at that moment" clauses, judged inside the callback from raw memory (volatile reads): the table being released
+        // holds no entry, and no present entry of any live table still points to it. Only in the opt-level-0 flavour: the
+        // mapper clears the parent entry through a `&mut` (noalias) immediately before this call, and an optimising build
+        // may legally sink that store below the call, which an observer inside the callback would misread as "still
+        // linked" (not seen with the current compiler, but the check must never alarm on a correct tree). Not under Miri either (reading behind a live `&mut`).
+        if cfg!(vx_opt0) && !cfg!(miri) {
+            if let Some(i) = s.frame_index(p) {
+                if s.role[i] == Role::Allocated {
+                    let nonzero = (0..512).filter(|&k| s.read(i, k) != 0).count();
+                    if nonzero != 0 {
+                        s.callback_violations.push(("C10".into(), "dealloc|table-not-empty-at-the-moment-of-deallocation".into(), format!("deallocate_frame({:#x}) while {} of its entries are non-zero", p, nonzero)));
+                    }
+                    // structural walk from the root, the way the MMU would reach a table: present, non-huge entries of
+                    // levels 4..2 only (a level-1 entry is a leaf whose frame may legitimately equal a table's address)
+                    let mut linked_from = None;
+                    let root_phys = s.phys[s.root];
+                    let mut stack: Vec<(usize, u8)> = vec![(s.root, 4)];
+                    let mut visited = 0usize;
+                    while let Some((j, lvl)) = stack.pop() {
+                        visited += 1;
+                        if visited > 4 * s.n() + 8 {
+                            break;
+                        }
+                        for k in 0..512 {
+                            let e = s.read(j, k);
+                            if e & 1 == 0 || (lvl < 4 && e & 0x80 != 0) {
+                                continue;
+                            }
+                            let t = e & 0x000f_ffff_ffff_f000;
+                            if lvl == 4 && t == root_phys {
+                                continue; // recursive entry
+                            }
+                            if t == p {
+                                linked_from = Some((s.phys[j], k));
+                            }
+                            if lvl > 2 {
+                                if let Some(c) = s.frame_index(t) {
+                                    if c != i {
+                                        stack.push((c, lvl - 1));
+                                    }
+                                }
+                            }
+                        }
+                    }
+                    if let Some((pf, k)) = linked_from {
+                        s.callback_violations.push(("C10".into(), "dealloc|table-still-linked-at-the-moment-of-deallocation".into(), format!("deallocate_frame({:#x}) while entry {} of table {:#x} still points to it", p, k, pf)));
+                    }
+                }
+            }
+        }
         match s.frame_index(p) {
             Some(i) if s.role[i] == Role::Allocated => {
                 s.role[i] = Role::Free;
